@@ -46,7 +46,10 @@ def run(chk, tier):
     chk.trust("vec::IntoIter yields in order; Vec::push appends; callees Record::{compressed,decompress,messages}, File::records are decided by C05/C06/C03")
     # 'not altered' reaches into the type-31 decoder: every moment block is delivered to its own slot with a gate buffer of
     # exactly gates x word bytes (the C02 obligations on the decoder the pipeline calls)
-    from rules import c02
+    from rules import c02, c03, c05
+    # "none lost": every radial of the file reaches the decoder only if the records tile the file and each is inflated whole
+    c05.records_and_payloads(chk, prog)
+    c03.framing(chk, prog)
     c02.gate_buffer(chk, prog)
     f31 = prog.fn(c02.FN)
     if f31 is None:
